@@ -37,6 +37,33 @@ CHECKS = [
  chk("C07", "property-based testing: pieces of split/decomposition vs exact reference of the input under the affine domain map",
      "Generated split parameters (inside spans, on knots of any multiplicity, knots of the other direction) and decomposition directions; every piece compared with the exact reference of the input on its sub-interval; piece counts, Bezier form, input unchanged, end splits rejected.",
      BASE_NOTE, "DESIGN.md 5/C07"),
+ chk("C08", "property-based testing: Bezier polygons vs exact Bernstein/power-basis reference; elevation-reduction round trip",
+     "Generated Bezier polygons (points, homogeneous points, rows of points) of degree 1..8; elevated control points compared with the exact closed form and as polynomial curves; reduction applied to exact elevations must return the original; non-Bezier input and non-positive counts rejected.",
+     BASE_NOTE, "DESIGN.md 5/C08"),
+ chk("C09", "property-based testing: stateful setter/reader histories against a (points, weights) model; round trips of helper conversions; exhaustive grid enumeration",
+     "Generated histories of ctrlpts/weights/ctrlptsw setters and reads on NURBS curves/surfaces/volumes against a model; helper conversions mutually inverse; weighted grids enumerated exhaustively for sizes 1..6; conversions and uniform weight scaling leave evaluation unchanged.",
+     BASE_NOTE, "DESIGN.md 5/C09"),
+ chk("C10", "property-based testing: transform histories (copies and in-place) vs the composed map applied to exact reference points",
+     "Generated sequences of translate/rotate/scale on shapes and containers, mixing copies, in-place updates and view reads; every tracked object must evaluate to the recorded composition of maps applied to the exact original points; inputs untouched without inplace.",
+     BASE_NOTE + " Rotation about y is accepted in either handedness.", "DESIGN.md 5/C10"),
+ chk("C11", "property-based testing: fitting results vs independently recomputed parameters, interpolation conditions and least-squares normal equations",
+     "Generated data sets with bounded chord ratios; interpolation through every data point at independently recomputed chord/centripetal parameters; approximation end/corner interpolation and normal equations, cross-checked with numpy lstsq when well conditioned.",
+     BASE_NOTE, "DESIGN.md 5/C11"),
+ chk("C13", "property-based testing: layout model v + nv*(u + nu*w) vs every module addressing control points; extract/construct round trips",
+     "Generated surfaces/volumes with pairwise different sizes and distinct points; 2-D view, managers, flips, transpose, flip, extraction, construction, iso-surfaces and sweeping compared with the documented flat index model and the exact reference.",
+     BASE_NOTE, "DESIGN.md 5/C13"),
+ chk("C16", "property-based testing: linear algebra results vs exact rational arithmetic with LU backward-error bounds; call histories sharing memoised state",
+     "Generated non-singular (P*L*U), diagonally dominant, swap-needing and collocation matrices up to 8x8; every returned solution/inverse/determinant checked against exact rational arithmetic; pivot output must be a permutation with P*M; histories of calls; helpers vs Fractions.",
+     BASE_NOTE + " One known finding (unpivoted lu_solve) is excluded by an exact class predicate.", "DESIGN.md 5/C16"),
+ chk("C18", "property-based testing: separating-hyperplane test of evaluated points against the active control points; bounding box and length bounds",
+     "Generated shapes, parameters and directions; projections of evaluated points lie within those of the (degree+1)^dim active control points (own span arithmetic and find_ctrlpts); sampled points inside bbox; chord <= length <= polygon.",
+     BASE_NOTE, "DESIGN.md 5/C18"),
+ chk("C19", "property-based testing: pairs differing in exactly one component (or none) vs equivalence-relation laws",
+     "Generated pairs of shapes that are copies, identical rebuilds, or differ in exactly one coordinate / weight / knot / degree / size / kind / rationality; reflexive, symmetric, != negation, copies equal, single changes unequal.",
+     BASE_NOTE + " The tolerance value is not pinned (changes >= 1e-5).", "DESIGN.md 5/C19"),
+ chk("C20", "property-based testing: rays, winding number, hull, orientation, voxels and control-point lookup vs exact rational arithmetic",
+     "Ray pairs constructed as crossing / parallel / coincident / skew; polygons and point sets on an integer grid vs exact winding number and monotone-chain hull; voxel fill flags vs sampled points with a 1e-6 ambiguity band; lookup vs exact active sets.",
+     BASE_NOTE, "DESIGN.md 5/C20"),
 ]
 DONE = set(c["property_id"] for c in CHECKS)
 NOT_APPLICABLE = [{"property_id": p, "reason": "check not built yet in this revision (work in progress; PBT applies, see DESIGN.md section 5)"}
